@@ -8,10 +8,13 @@ Import ListNotations.
 (* ------------------------------------------------------------------ *)
 (* no UniqueConstraintError                                            *)
 (* ------------------------------------------------------------------ *)
-Definition hkey (t : rt) : Z := i_hash (rinfo t).
-(* equal hashes only for equal data, among the nodes of a list *)
-Definition hash_inj (l : list rt) : Prop :=
-  forall x y, In x l -> In y l -> hkey x = hkey y -> key x = key y.
+(* what Tree._register guarantees for every real tree: no two siblings with
+   one data_id, at any level *)
+Definition dsu (f : forest) : Prop :=
+  NoDup (map rdid f) /\ forall x, In x (pre_f f) -> NoDup (map rdid (rch x)).
+(* equal data_ids only for equal data, among the nodes of a list *)
+Definition did_inj (l : list rt) : Prop :=
+  forall x y, In x l -> In y l -> rdid x = rdid y -> key x = key y.
 
 Lemma existsb_did_in d l : existsb (did_eqb d) l = true <-> In d l.
 Proof.
@@ -39,94 +42,94 @@ Proof.
   - apply IH; auto.
 Qed.
 
-(* every node of the result wraps the data of a source node: same key, same hash *)
-Definition src_of (x s : rt) : Prop := key x = key s /\ rdid x = DInt (hkey s).
+(* every node of the result wraps the data of a source node: same key, same data_id *)
+Definition src_of (x s : rt) : Prop := key x = key s /\ rdid x = rdid s.
 
-Lemma res_dids_nodup (r srcs : list rt) :
-  NoDup (keys r) -> hash_inj srcs ->
-  (forall x, In x r -> exists s, In s srcs /\ src_of x s) ->
-  dids_nodup (map rdid r) = true.
+Lemma dsu_sub f c : dsu f -> In c f -> dsu (rch c).
 Proof.
-  intros Hk Hh Hs. apply dids_nodup_iff. apply (NoDup_map_transfer key rdid); [exact Hk|].
-  intros x y Hx Hy E. destruct (Hs x Hx) as [sx [Hsx [Kx Dx]]]. destruct (Hs y Hy) as [sy [Hsy [Ky Dy]]].
-  rewrite Kx, Ky. apply Hh; auto. rewrite Dx, Dy in E. now injection E.
+  intros [U V] Hc. split; [apply V; now apply in_pre_f_top|]. intros x Hx. apply V. eapply pre_f_sub; eauto.
 Qed.
-
-(* copies of t1 branches *)
-Lemma copy_child_sibs_ok : forall n m,
-  (forall x, In x (pre n) -> NoDup (keys (rch x))) -> hash_inj (pre n) -> sibs_ok (copy_child m n) = true.
-Proof.
-  induction n as [id i ch IH] using rt_ind'. intros m HU HH. cbn [copy_child sibs_ok].
-  apply andb_true_iff. split.
-  - apply (res_dids_nodup _ ch).
-    + rewrite map_map. erewrite map_ext; [apply (HU (T id i ch)); now left|]. intros c. now destruct c.
-    + intros x y Hx Hy. apply HH; right; apply in_pre_f_top; auto.
-    + intros x' Hx'. apply in_map_iff in Hx'. destruct Hx' as [c [<- Hc]]. exists c. split; [exact Hc|]. now destruct c.
-  - apply forallb_forall. intros x' Hx'. apply in_map_iff in Hx'. destruct Hx' as [c [<- Hc]].
-    rewrite Forall_forall in IH. apply IH; [exact Hc| |].
-    + intros x Hx. apply HU. right. apply in_flat_map. eauto.
-    + intros x y Hx Hy. apply HH; right; apply in_flat_map; eauto.
-Qed.
-
-Lemma add_top_sibs_ok c1 :
-  (forall x, In x (pre c1) -> NoDup (keys (rch x))) -> hash_inj (pre c1) -> sibs_ok (add_top c1) = true.
-Proof.
-  destruct c1 as [id i ch]. intros HU HH. unfold add_top. cbn [rid rinfo rch sibs_ok]. unfold copy_children.
-  apply andb_true_iff. split.
-  - apply (res_dids_nodup _ ch).
-    + rewrite map_map. erewrite map_ext; [apply (HU (T id i ch)); now left|]. intros c. now destruct c.
-    + intros x y Hx Hy. apply HH; right; apply in_pre_f_top; auto.
-    + intros x' Hx'. apply in_map_iff in Hx'. destruct Hx' as [c [<- Hc]]. exists c. split; [exact Hc|]. now destruct c.
-  - apply forallb_forall. intros x' Hx'. apply in_map_iff in Hx'. destruct Hx' as [c [<- Hc]].
-    apply copy_child_sibs_ok.
-    + intros x Hx. apply HU. right. apply in_flat_map. eauto.
-    + intros x y Hx Hy. apply HH; right; apply in_flat_map; eauto.
-Qed.
-
-Lemma hash_inj_incl l l' : hash_inj l -> incl l' l -> hash_inj l'.
-Proof. intros H I x y Hx Hy. apply H; auto. Qed.
 
 Lemma sibs_ok_unfold x : sibs_ok x = sibs_ok_f (rch x).
 Proof. now destruct x. Qed.
 
-Lemma compare_sibs_ok ordered : forall ch0 ch1, dom ch0 ch1 ->
-  sib_unique ch1 -> hash_inj (pre_f ch0 ++ pre_f ch1) ->
-  sibs_ok_f (fst (compare ordered ch0 ch1)) = true.
+Lemma rdid_copy_child m n : rdid (copy_child m n) = rdid n. Proof. now destruct n. Qed.
+Lemma rdid_add_top c : rdid (add_top c) = rdid c. Proof. now destruct c. Qed.
+Lemma rdid_cmp ordered ch1 i0 c0 : rdid (fst (cmp ordered ch1 i0 c0)) = rdid c0.
+Proof. rewrite cmp_unfold. destruct (find_child ch1 (key c0)) as [[i1 c1]|]; now destruct c0. Qed.
+
+(* copies of t1 branches *)
+Lemma copy_child_sibs_ok : forall n m,
+  (forall x, In x (pre n) -> NoDup (map rdid (rch x))) -> sibs_ok (copy_child m n) = true.
 Proof.
-  induction 1 as [ch0 ch1 N0 N1 Ag Hsub IH]. intros SU HH.
-  pose proof (compare_lvl ordered ch0 ch1 (dom_intro ch0 ch1 N0 N1 Ag Hsub)) as LV.
-  inversion LV as [? ? ? ? _ _ _ L2 _ _ _ _ _ _ _ _]; subst. clear LV.
-  unfold sibs_ok_f. apply andb_true_iff. split.
-  - apply (res_dids_nodup _ (ch0 ++ ch1)); [exact L2| |].
-    + eapply hash_inj_incl; [exact HH|]. intros s Hs. apply in_app_or in Hs. apply in_or_app.
-      destruct Hs; [left|right]; now apply in_pre_f_top.
-    + intros x Hx. rewrite compare_split in Hx. apply in_app_or in Hx. destruct Hx as [Hx|Hx].
-      * apply r0_in in Hx. destruct Hx as [i0 [c0 [Hi ->]]]. exists c0. split; [apply in_or_app; left; eapply nth_error_In; eauto|].
-        rewrite cmp_unfold. destruct (find_child ch1 (key c0)) as [[i1 c1]|]; now destruct c0.
-      * apply added_part_in in Hx. destruct Hx as [c1 [H1 [_ ->]]]. exists c1. split; [apply in_or_app; now right|].
-        now destruct c1.
-  - apply forallb_forall. intros x Hx. rewrite compare_split in Hx. apply in_app_or in Hx. destruct Hx as [Hx|Hx].
-    + apply r0_in in Hx. destruct Hx as [i0 [c0 [Hi ->]]]. rewrite cmp_unfold.
-      destruct (find_child ch1 (key c0)) as [[i1 c1]|] eqn:F; [|reflexivity].
-      destruct (find_child_some _ _ _ _ F) as [_ [K [H1 _]]]. cbv zeta. cbn [fst]. rewrite sibs_ok_unfold. cbn [rch].
-      pose proof (nth_error_In _ _ Hi) as H0.
-      apply (IH c0 c1 H0 H1 (eq_sym K)).
-      * eapply sib_unique_sub; eauto.
-      * eapply hash_inj_incl; [exact HH|]. intros s Hs. apply in_app_or in Hs. apply in_or_app.
-        destruct Hs; [left|right]; eapply pre_f_sub; eauto.
-    + apply added_part_in in Hx. destruct Hx as [c1 [H1 [_ ->]]]. apply add_top_sibs_ok.
-      * intros x Hx. apply SU. apply in_flat_map. eauto.
-      * eapply hash_inj_incl; [exact HH|]. intros s Hs. apply in_or_app. right. apply in_flat_map. eauto.
+  induction n as [id i ch IH] using rt_ind'. intros m HU. cbn [copy_child sibs_ok].
+  apply andb_true_iff. split.
+  - apply dids_nodup_iff. rewrite map_map. erewrite map_ext; [apply (HU (T id i ch)); now left|].
+    intros c. apply rdid_copy_child.
+  - apply forallb_forall. intros x' Hx'. apply in_map_iff in Hx'. destruct Hx' as [c [<- Hc]].
+    rewrite Forall_forall in IH. apply IH; [exact Hc|].
+    intros x Hx. apply HU. right. apply in_flat_map. eauto.
 Qed.
 
-(* in the domain, with collision-free hashes, diff() returns a result *)
-Theorem diff_no_error hints ordered reduce t0 t1 :
-  dom t0 t1 -> sib_unique t1 -> hash_inj (pre_f t0 ++ pre_f t1) ->
+Lemma add_top_sibs_ok c1 :
+  (forall x, In x (pre c1) -> NoDup (map rdid (rch x))) -> sibs_ok (add_top c1) = true.
+Proof.
+  destruct c1 as [id i ch]. intros HU. unfold add_top. cbn [rid rinfo rch sibs_ok]. unfold copy_children.
+  apply andb_true_iff. split.
+  - apply dids_nodup_iff. rewrite map_map. erewrite map_ext; [apply (HU (T id i ch)); now left|].
+    intros c. apply rdid_copy_child.
+  - apply forallb_forall. intros x' Hx'. apply in_map_iff in Hx'. destruct Hx' as [c [<- Hc]].
+    apply copy_child_sibs_ok. intros x Hx. apply HU. right. apply in_flat_map. eauto.
+Qed.
+
+Lemma r0_dids ordered ch1 ch0 : map rdid (r0_of ordered ch1 ch0) = map rdid ch0.
+Proof.
+  unfold r0_of. generalize 0. induction ch0 as [|c ch0 IH]; intros i; cbn; [reflexivity|].
+  now rewrite IH, rdid_cmp.
+Qed.
+
+Lemma compare_sibs_ok_aux ordered ch0 :
+  Forall (fun c => forall ch1 i0, (forall x, In x (pre c) -> NoDup (map rdid (rch x))) -> dsu ch1 ->
+                   sibs_ok (fst (cmp ordered ch1 i0 c)) = true) ch0 ->
+  forall ch1, dsu ch0 -> dsu ch1 -> sibs_ok_f (fst (compare ordered ch0 ch1)) = true.
+Proof.
+  intros IH ch1 D0 D1. unfold sibs_ok_f. rewrite compare_split. apply andb_true_iff. split.
+  - apply dids_nodup_iff. rewrite map_app, r0_dids. apply NoDup_app_intro; [apply D0| |].
+    + unfold added_part. rewrite map_map. erewrite map_ext; [|intros c; apply rdid_add_top].
+      apply NoDup_map_filter, D1.
+    + intros d H0 Ha. apply in_map_iff in Ha. destruct Ha as [x [<- Hx]].
+      apply added_part_in in Hx. destruct Hx as [c1 [_ [Hno ->]]]. rewrite rdid_add_top in H0.
+      apply in_dids_false in Hno. contradiction.
+  - apply forallb_forall. intros x Hx. apply in_app_or in Hx. destruct Hx as [Hx|Hx].
+    + apply r0_in in Hx. destruct Hx as [i0 [c0 [Hi ->]]]. pose proof (nth_error_In _ _ Hi) as H0.
+      rewrite Forall_forall in IH. apply (IH c0 H0 ch1 i0); [|exact D1].
+      intros y Hy. apply D0. apply in_flat_map. eauto.
+    + apply added_part_in in Hx. destruct Hx as [c1 [H1 [_ ->]]]. apply add_top_sibs_ok.
+      intros y Hy. apply D1. apply in_flat_map. eauto.
+Qed.
+
+Lemma cmp_sibs_ok ordered : forall c0 ch1 i0,
+  (forall x, In x (pre c0) -> NoDup (map rdid (rch x))) -> dsu ch1 -> sibs_ok (fst (cmp ordered ch1 i0 c0)) = true.
+Proof.
+  induction c0 as [n0 inf0 ch0 IH] using rt_ind'. intros ch1 i0 HU D1. rewrite cmp_unfold.
+  destruct (find_child ch1 (key (T n0 inf0 ch0))) as [[i1 c1]|] eqn:F; [|reflexivity].
+  destruct (find_child_some _ _ _ _ F) as [_ [_ [H1 _]]]. cbv zeta. cbn [fst]. rewrite sibs_ok_unfold. cbn [rch].
+  apply (compare_sibs_ok_aux ordered ch0 IH (rch c1)).
+  - split; [apply (HU (T n0 inf0 ch0)); now left|]. intros x Hx. apply HU. now right.
+  - eapply dsu_sub; eauto.
+Qed.
+
+Lemma compare_sibs_ok ordered ch0 ch1 : dsu ch0 -> dsu ch1 -> sibs_ok_f (fst (compare ordered ch0 ch1)) = true.
+Proof. apply compare_sibs_ok_aux. apply Forall_forall. intros c _. apply cmp_sibs_ok. Qed.
+
+(* for well-formed inputs (no two siblings with one data_id) diff() returns a
+   result: no domain hypothesis is needed *)
+Theorem diff_no_error hints ordered reduce t0 t1 : dsu t0 -> dsu t1 ->
   diff_tree_lit hints ordered reduce t0 t1 =
   Some (diff_with (eff_order hints (fst (compare ordered t0 t1))) ordered reduce t0 t1).
 Proof.
-  intros Hd SU HH. rewrite diff_tree_lit_eq. unfold diff_tree, diff_gen.
-  now rewrite (compare_sibs_ok ordered t0 t1 Hd SU HH).
+  intros D0 D1. rewrite diff_tree_lit_eq. unfold diff_tree, diff_gen.
+  now rewrite (compare_sibs_ok ordered t0 t1 D0 D1).
 Qed.
 
 (* ------------------------------------------------------------------ *)
@@ -371,25 +374,17 @@ Theorem eff_order_is_permutation hints ordered t0 t1 : dom t0 t1 -> NoDup (ids t
 Proof. intros Hd Hn. apply eff_order_perm. now apply added_ids_nodup. Qed.
 
 (* ------------------------------------------------------------------ *)
-(* the executable test of the no-error hypotheses is sound             *)
+(* the executable test of the no-error hypothesis is sound             *)
 (* ------------------------------------------------------------------ *)
-Lemma sib_unique_b_sound f : sib_unique_b f = true -> sib_unique f.
+Lemma dsu_b_sound f : dsu_b f = true -> dsu f.
 Proof.
-  unfold sib_unique_b. intros H. apply andb_true_iff in H. destruct H as [H1 H2]. rewrite forallb_forall in H2.
-  split; [now apply nodupb_sound|]. intros x Hx. apply nodupb_sound. now apply H2.
-Qed.
-
-Lemma hash_inj_b_sound l : hash_inj_b l = true -> hash_inj l.
-Proof.
-  unfold hash_inj_b. intros H x y Hx Hy E. rewrite forallb_forall in H. specialize (H x Hx).
-  rewrite forallb_forall in H. specialize (H y Hy). unfold hkey in E. rewrite E, Z.eqb_refl in H. cbn in H.
-  now apply Z.eqb_eq in H.
+  unfold dsu_b. intros H. apply andb_true_iff in H. destruct H as [H1 H2]. rewrite forallb_forall in H2.
+  split; [now apply dids_nodup_iff|]. intros x Hx. apply dids_nodup_iff. now apply H2.
 Qed.
 
 Theorem no_raise_b_sound hints ordered reduce t0 t1 : no_raise_b t0 t1 = true ->
   diff_tree_lit hints ordered reduce t0 t1 <> None.
 Proof.
-  unfold no_raise_b. intros H. apply andb_true_iff in H. destruct H as [H H3]. apply andb_true_iff in H. destruct H as [H1 H2].
-  rewrite (diff_no_error hints ordered reduce t0 t1); [discriminate|now apply dom_b_sound|now apply sib_unique_b_sound|
-    now apply hash_inj_b_sound].
+  unfold no_raise_b. intros H. apply andb_true_iff in H. destruct H as [H1 H2].
+  rewrite (diff_no_error hints ordered reduce t0 t1); [discriminate|now apply dsu_b_sound|now apply dsu_b_sound].
 Qed.
